@@ -7,7 +7,7 @@ VERIF=$(cd "$(dirname "$0")/../.." && pwd)
 cd "$VERIF" || exit 2
 SCRATCH=${SEEDED_SCRATCH:-/tmp/seeded-scratch-$$}
 IDS="$*"
-[ -z "$IDS" ] && IDS=$(ls seeded)
+[ -z "$IDS" ] && IDS=$(for d in seeded/*/; do basename "$d"; done)
 for id in $IDS; do
   pid=$(echo "$id" | cut -d- -f1)
   git -C /repo worktree remove --force "$SCRATCH" >/dev/null 2>&1
